@@ -293,7 +293,7 @@ def build_tree(w, rnd, cls, depth, nid, chk=True, valid=True, mixed_chk=False):
     return i
 
 
-def doc_case(drv, rnd, cls=None, depth=2, mixed_chk=False, mutate=True, copy=False, dots=True):
+def doc_case(drv, rnd, cls=None, depth=2, mixed_chk=False, mutate=True, copy=False, dots=True, roots=1):
     """one generated document + a few mutations + serialisations; returns the World"""
     w = World(drv)
     cls = cls or rnd.choice(ALL)
@@ -302,6 +302,14 @@ def doc_case(drv, rnd, cls=None, depth=2, mixed_chk=False, mutate=True, copy=Fal
     if root is None:
         return w
     w.tostr(root)
+    others = []
+    for _ in range(roots - 1):
+        # further, independent documents in the same process: same class or another one; their
+        # operations are interleaved with those on the first (isolation, C13)
+        c2 = cls if rnd.random() < 0.5 else rnd.choice(ALL)
+        r2 = build_tree(w, rnd, c2, max(0, depth - 1), nid, True, True, mixed_chk)
+        if r2 is not None:
+            others.append(r2)
     ids = list(w.objs)
     if mutate:
         for _ in range(rnd.randint(1, 6)):
@@ -362,6 +370,8 @@ def doc_case(drv, rnd, cls=None, depth=2, mixed_chk=False, mutate=True, copy=Fal
                 w.tostr(i, rnd.random() < 0.2)
         w.tostr(root)
         w.tostr(root)
+        for r2 in others:
+            w.tostr(r2)
         w.attrs(rnd.choice(ids))
     if copy:
         m, r = w.copy(root, 100000)
